@@ -136,19 +136,34 @@ def norm(s):
     return re.sub(r"\s+", " ", s).strip()
 
 
-def check_set_errno(hdr):
-    _, body = function_body(hdr, "imb_set_errno")
-    want = "if (mb_mgr != NULL) mb_mgr->imb_errno = errnum; if (imb_errno != errnum) imb_errno = errnum;"
-    if norm(body) != want:
-        raise T9Error("imb_set_errno body changed:\n  have: %s\n  want: %s" % (norm(body), want))
+CELLS = {("arrow", ("id", "PTR"), "imb_errno"): "field", ("id", "imb_errno"): "glob"}
 
 
-def check_get_errno(src):
-    _, body = function_body(src, "imb_get_errno")
+def _fn_term(src, name, int_param, void):
+    """translate the body of imb_set_errno / imb_get_errno (any statement form inside translators/cmini.py's fragment)
+    into a Gallina term over: mgr_nonnull : bool, field glob : Z (the manager's field and the mirror) and e : Z"""
+    from translators import cmini
+    params, body = function_body(src, name)
     body = re.sub(r"IMB_ASSERT\s*\(.*?\)\s*;", "", body, flags=re.S)
-    want = "if (mb_mgr != NULL && mb_mgr->imb_errno) return mb_mgr->imb_errno; return imb_errno;"
-    if norm(body) != want:
-        raise T9Error("imb_get_errno body changed:\n  have: %s\n  want: %s" % (norm(body), want))
+    ps = [x.strip() for x in params.split(",")]
+    pm = re.match(r"^(?:const\s+)?IMB_MGR\s*\*\s*(?:const\s+)?([A-Za-z_0-9]+)$", ps[0])
+    if not pm:
+        raise T9Error("%s: first parameter is not an IMB_MGR pointer: %r" % (name, ps[0]))
+    ptr = pm.group(1)
+    vals = {}
+    if int_param:
+        im = re.match(r"^(?:const\s+)?int\s+([A-Za-z_0-9]+)$", ps[1]) if len(ps) == 2 else None
+        if not im:
+            raise T9Error("%s: second parameter is not an int: %r" % (name, ps[1:]))
+        vals[im.group(1)] = "e"
+    elif len(ps) != 1:
+        raise T9Error("%s: unexpected parameters %r" % (name, ps))
+    cells = {(k[0], ("id", ptr), k[2]) if k[0] == "arrow" else k: v for k, v in CELLS.items()}
+    try:
+        G = cmini.Gallina({ptr: "mgr_nonnull"}, cells, vals, void_result="(field, glob)" if void else None)
+        return G.seq([cmini.parse_body(body)])
+    except cmini.CMiniError as ex:
+        raise T9Error("%s: body outside the translated C fragment: %s" % (name, ex))
 
 
 def coq_string(s):
@@ -175,8 +190,8 @@ def main(need_strerror=True):
         if need_strerror:
             raise
         guards, cases, default = [], [], None
-    check_set_errno(hdr)
-    check_get_errno(src)
+    set_term = _fn_term(hdr, "imb_set_errno", True, True)
+    get_term = _fn_term(src, "imb_get_errno", False, False)
     mirror_decl = re.search(r"IMB_DLL_LOCAL\s+volatile\s+((?:__thread|_Thread_local|thread_local)\s+)?int\s+imb_errno\s*;", src)
     if not mirror_decl:
         raise T9Error("declaration of the process-wide mirror `imb_errno` not recognised")
@@ -215,11 +230,15 @@ def main(need_strerror=True):
     L.append("            end")
     L.append("  end.")
     L.append("")
-    L.append("(* shape facts checked textually by the translator (it fails when they do not hold):")
-    L.append("   imb_set_errno = { if (mgr != NULL) mgr->imb_errno = e; if (imb_errno != e) imb_errno = e; }")
-    L.append("   imb_get_errno = { if (mgr != NULL && mgr->imb_errno) return mgr->imb_errno; return imb_errno; } *)")
-    L.append("Definition set_errno_shape_checked : bool := true.")
-    L.append("Definition get_errno_shape_checked : bool := true.")
+    L.append("(* imb_set_errno (lib/include/error.h) and imb_get_errno (lib/x86_64/error.c) translated statement by statement")
+    L.append("   (translators/cmini.py): mgr_nonnull = the IMB_MGR pointer is not NULL, field = mgr->imb_errno, glob = the")
+    L.append("   process-wide mirror, e = the code passed in; the result of the void function is the pair of cells afterwards.")
+    L.append("   Proofs/ErrnoProofs.v proves them equal to the hand-written Mgr/Errno.v for all arguments. *)")
+    L.append("Local Open Scope Z_scope.")
+    L.append("Definition src_set_errno (mgr_nonnull : bool) (e field glob : Z) : Z * Z :=")
+    L.append("  " + set_term + ".")
+    L.append("Definition src_get_errno (mgr_nonnull : bool) (field glob : Z) : Z :=")
+    L.append("  " + get_term + ".")
     L.append("Definition mirror_is_thread_local : bool := %s." % ("true" if thread_local else "false"))
     txt = "\n".join(L) + "\n"
     outp = os.path.join(common.COQDIR, "Gen", "GenStrerror.v")
